@@ -14,8 +14,11 @@
       `maxstepsize`), the recorded α must be *equal* to the model's;
     * where a rounding happens (`0.99*maxstepsize`, the initial guess from `f_k_minus_1`, the backtracking
       midpoint) it must be within relative tolerance `tol`; the recorded value is then used;
-    * the interpolated `alpha_j` of `_zoom` (`_cubicmin`/`_quadmin`, float and `sqrt`) is *taken from the trace*;
-      only the bracket the code enforces on it (which contains the bisection fall-back) is checked.
+    * the interpolated `alpha_j` of `_zoom` is taken from the trace and must be explained by one of the three rules
+      of the code, recomputed exactly from the recorded floats: the minimiser of `_quadmin`'s quadratic (rational,
+      compared with a conditioned error bound), a stationary point of `_cubicmin`'s cubic on the `+sqrt` branch
+      (`|p'(t)|` below a conditioned error bound; the square root itself is never computed), or the bisection
+      point — each inside the bracket the code enforces for it.
   The result is what the code returns: `(energy at α, success)` or an exception kind.
   Core imports only; scalar type `K` generic (driver: `Rat`; theorems: every ordered field).
 -/
@@ -46,6 +49,7 @@ structure Consts (K : Type) where
   cubicDelta : K    -- 0.2
   huge : K          -- 1e100
   tol : K           -- relative tolerance on recomputed step lengths
+  eps : K           -- unit of the *conditioned* error bounds for `_quadmin`/`_cubicmin` (2^-52 × safety factor)
 
 structure Params (K : Type) where
   c1 : K
@@ -101,18 +105,85 @@ structure ZState (K : Type) where
   phiLo : K
   dphiLo : K
   phiHi : K
+  recent : Option (K × K)      -- (alpha_recent, phi_recent); `None` before the first zoom iteration has finished
+
+/-- `_quadmin(a, fa, fpa, b, fb)`: minimiser of the quadratic through `(a, fa)` with slope `fpa` and through `(b, fb)`;
+    `none` = ArithmeticError (division by zero) -/
+def quadmin (a fa fpa b fb : K) : Option K :=
+  let db := b - a
+  if db * db = 0 then none else
+  -- B = (fb - D - C*db)/(db*db);  xmin = a - C/(2.0*B)
+  let B := (fb - fa - fpa * db) / (db * db)
+  if B + B = 0 then none else some (a - fpa / (B + B))
+
+/-- is `αj` the float result of `_quadmin`? `|αj − q|` against the rounding-error bound of the code's formula
+    (cancellation in the numerator `fb − fa − fpa·db` is accounted for: the bound grows with its condition number) -/
+def quadOk (c : Consts K) (a fa fpa b fb αj : K) : Bool :=
+  match quadmin a fa fpa b fb with
+  | none => false
+  | some q =>
+    let db := b - a
+    let num := fb - fa - fpa * db
+    let eN := c.eps * (absK fb + absK fa + absK (fpa * db))
+    decide (absK (αj - q) ≤ absK (q - a) * (eN / absK num + c.eps) + c.eps * (absK a + absK q))
+
+/-- coefficients `(A, B)` of `_cubicmin`'s cubic `fa + C t + B t² + A t³` (`t = x − a`, `C = fpa`) through
+    `(b, fb)` and `(c, fc)`; `none` = ArithmeticError (`denom = 0`) -/
+def cubicAB (a fa fpa b fb cc fc : K) : Option (K × K) :=
+  let db := b - a
+  let dc := cc - a
+  let denom := db * db * dc * dc * (db - dc)
+  if denom = 0 then none else
+  let u := fb - fa - fpa * db
+  let v := fc - fa - fpa * dc
+  -- [A, B] = d1 · [u, v] / denom,  d1 = [[dc², −db²], [−dc³, db³]]
+  some ((dc * dc * u - db * db * v) / denom, (-(dc * dc * dc) * u + db * db * db * v) / denom)
+
+/-- is `αj` the float result of `_cubicmin`, `xmin = a + (−B + sqrt(B² − 3AC))/(3A)`?  Without computing the root:
+    `t = αj − a` must make `p'(t) = 3At² + 2Bt + C` vanish up to the rounding-error bound (errors of `A`, `B` from
+    the recorded values, of the radical/sqrt/division, of `a + t`), on the branch `3At + B ≥ 0` -/
+def cubicOk (c : Consts K) (a fa fpa b fb cc fc αj : K) : Bool :=
+  match cubicAB a fa fpa b fb cc fc with
+  | none => false
+  | some (A, B) =>
+    if A = 0 then false else
+    let two := c.one + c.one
+    let three := two + c.one
+    let db := b - a
+    let dc := cc - a
+    let denom := db * db * dc * dc * (db - dc)
+    let u := fb - fa - fpa * db
+    let v := fc - fa - fpa * dc
+    let t := αj - a
+    let eu := c.eps * (absK fb + absK fa + absK (fpa * db)) + c.eps * absK u
+    let ev := c.eps * (absK fc + absK fa + absK (fpa * dc)) + c.eps * absK v
+    let dA := (dc * dc * eu + db * db * ev) / absK denom + c.eps * absK A
+    let dB := (absK (dc * dc * dc) * eu + absK (db * db * db) * ev) / absK denom + c.eps * absK B
+    let r := three * A * t + B
+    let bound := three * t * t * dA + two * absK t * dB
+      + c.eps * (B * B + three * absK (A * fpa)) / (three * absK A)
+      + absK (two * r) * c.eps * (absK αj + absK a)
+    decide (absK (three * A * t * t + two * B * t + fpa) ≤ bound) &&
+      decide (0 ≤ r + c.eps * (absK B + absK (three * A * t)))
 
 /-- is the recorded `alpha_j` one the code can have chosen in zoom iteration `i` from state `z`?
     The code keeps the cubic minimiser (only for `i > 0`) iff `a + 0.2Δ ≤ α_j ≤ b − 0.2Δ`, else the quadratic one iff
-    `a + 0.1Δ ≤ α_j ≤ b − 0.1Δ`, else takes `alpha_lo + 0.5Δ` (which lies in the latter interval);
-    `Δ = alpha_hi − alpha_lo` is signed, as in the code. `slack` absorbs the float rounding of the bracket ends. -/
+    `a + 0.1Δ ≤ α_j ≤ b − 0.1Δ`, else takes `alpha_lo + 0.5Δ`; `Δ = alpha_hi − alpha_lo` is signed, as in the code.
+    `slack` absorbs the float rounding of the bracket ends. -/
 def alphaJOk (c : Consts K) (i : Nat) (z : ZState K) (αj : K) : Bool :=
   let Δ := z.hi - z.lo
   let a := minK z.lo z.hi
   let b := maxK z.lo z.hi
   let slack := c.tol * (absK a + absK b)
   let within (chk : K) : Bool := decide (a + chk ≤ αj + slack) && decide (αj ≤ b - chk + slack)
-  within (c.quadDelta * Δ) || (decide (0 < i) && within (c.cubicDelta * Δ))
+  let viaCubic : Bool :=
+    match z.recent with
+    | none => false
+    | some (ar, fr) =>
+      decide (0 < i) && within (c.cubicDelta * Δ) && cubicOk c z.lo z.phiLo z.dphiLo z.hi z.phiHi ar fr αj
+  let viaQuad : Bool := within (c.quadDelta * Δ) && quadOk c z.lo z.phiLo z.dphiLo z.hi z.phiHi αj
+  let viaBisect : Bool := close c αj (z.lo + c.half * Δ)
+  viaCubic || viaQuad || viaBisect
 
 /-- the `for i in range(self.max_zoom_iterations)` loop; `n` = iterations left, `last` = α of `le_alphaj` -/
 def zoomLoop (c : Consts K) (p : Params K) : Nat → Nat → ZState K → Option K → List (Ev K) → Except String (Outcome K)
@@ -136,7 +207,8 @@ def zoomLoop (c : Consts K) (p : Params K) : Nat → Nat → ZState K → Option
           | some _ => .error "zoom: derivative evaluated although the first Wolfe test failed"
           | none =>
             -- alpha_hi, phi_hi = alpha_j, phi_alphaj
-            zoomLoop c p n (i + 1) { z with hi := ev.α, phiHi := f } (some ev.α) rest
+            -- alpha_recent, phi_recent = alpha_hi, phi_hi;  alpha_hi, phi_hi = alpha_j, phi_alphaj
+            zoomLoop c p n (i + 1) { z with hi := ev.α, phiHi := f, recent := some (z.hi, z.phiHi) } (some ev.α) rest
         else
           match ev.dφ with
           | none => .error "zoom: derivative not evaluated although the first Wolfe test passed"
@@ -144,7 +216,10 @@ def zoomLoop (c : Consts K) (p : Params K) : Nat → Nat → ZState K → Option
             -- if abs(phiprime_alphaj) <= -c2*phiprime_0: return le_alphaj.energy, True
             if curvatureOk p d then finish rest (.ret true ev.α) else
             -- if phiprime_alphaj*delta_alpha >= 0: alpha_hi, phi_hi = alpha_lo, phi_lo
-            let z1 : ZState K := if 0 ≤ d * (z.hi - z.lo) then { z with hi := z.lo, phiHi := z.phiLo } else z
+            --   (alpha_recent, phi_recent = alpha_hi, phi_hi)   else: alpha_recent, phi_recent = alpha_lo, phi_lo
+            let z1 : ZState K :=
+              if 0 ≤ d * (z.hi - z.lo) then { z with hi := z.lo, phiHi := z.phiLo, recent := some (z.hi, z.phiHi) }
+              else { z with recent := some (z.lo, z.phiLo) }
             -- alpha_lo, phi_lo, phiprime_lo = alpha_j, phi_alphaj, phiprime_alphaj
             zoomLoop c p n (i + 1) { z1 with lo := ev.α, phiLo := f, dphiLo := d } (some ev.α) rest
 
@@ -200,7 +275,7 @@ def mainLoop (c : Consts K) (p : Params K) (maxstep : K) : Nat → MState K → 
         if armijoFails p α f ∨ (s.phiA0 ≤ f ∧ 1 < iter) then
           match ev.dφ with
           | some _ => .error "main: derivative evaluated although _zoom is entered on the value alone"
-          | none => zoom c p ⟨s.alpha0, α, s.phiA0, s.dphiA0, f⟩ rest
+          | none => zoom c p ⟨s.alpha0, α, s.phiA0, s.dphiA0, f, none⟩ rest
         else
           match ev.dφ with
           | none => .error "main: derivative not evaluated although the first Wolfe test passed"
@@ -208,7 +283,7 @@ def mainLoop (c : Consts K) (p : Params K) (maxstep : K) : Nat → MState K → 
             -- if abs(phiprime_alpha1) <= -c2*phiprime_0: return le_alpha1.energy, True
             if curvatureOk p d then finish rest (.ret true α) else
             -- if phiprime_alpha1 >= 0: return self._zoom(alpha1, alpha0, ...)
-            if 0 ≤ d then zoom c p ⟨α, s.alpha0, f, d, s.phiA0⟩ rest else
+            if 0 ≤ d then zoom c p ⟨α, s.alpha0, f, d, s.phiA0, none⟩ rest else
             -- alpha0, alpha1 = alpha1, min(2*alpha1, maxstepsize)
             let a1 := minK (α + α) maxstep
             -- if alpha1 == maxstepsize: return le_alpha1.energy, False
